@@ -320,4 +320,4 @@ fn hash_external_account(ec: &ExternalAccount) -> Vec<u8> {
 
 #[cfg(feature = "breard_r_acmed_verif")]
 #[path = "/verif/probe/account_probe.rs"]
-mod verif;
+pub(crate) mod verif;
